@@ -318,6 +318,10 @@ def configurations(tier: str) -> List[Tuple[str, dict]]:
     # an offer from elsewhere: the same H.264 profile at another level (only the profile has to match), alone and next to VP8
     cfg("H.264-only offer at level 4.0 (profile-level-id 42e028)", offer=[("tx", "video", "sendrecv")], prefs=("offer", ["video/H264"]), edit=("42e01f", "42e028"), expect_codec="h264")
     cfg("VP8 + H.264 offer, H.264 at level 5.1 (42e033 / 420033)", offer=[("tx", "video", "sendrecv")], edit_re=(r"profile-level-id=42(e0|00)1f", r"profile-level-id=42\g<1>33"), expect_codec="h264")
+    cfg("H.264 offer whose fmtp carries sprop-parameter-sets with base64 padding ('=' inside a value)", offer=[("tx", "video", "sendrecv")], offer_data=True,
+        edit_re=(r"(a=fmtp:\d+ [^\r\n]*packetization-mode=1[^\r\n]*)", r"\1;sprop-parameter-sets=Z0IAH5WoFAFuQA==,aM48gA=="), expect_codec="h264")
+    cfg("offer that spells the codec names in another case (OPUS, vp8, h264; RFC 4855: names are case-insensitive)", offer=[("tx", "audio", "sendrecv"), ("tx", "video", "sendrecv")],
+        edit_re=(r"a=rtpmap:(\d+) (opus|VP8|H264|PCMU|PCMA|G722)/", lambda m: f"a=rtpmap:{m.group(1)} {m.group(2).swapcase()}/"), expect_codec=None)
     # a second offer while the first one is still pending
     cfg("audio offered, then video and data added and offered again before any answer", offer=[("tx", "audio", "sendrecv")], follow=("pending", [("tx", "video", "sendrecv")], True))
     cfg("data offered, then audio added and offered again before any answer", offer_data=True, follow=("pending", [("track", "audio", "sendrecv")], False))
@@ -385,7 +389,7 @@ def run_config(sim: PCSim, c: dict) -> List[str]:
         if len(read_sdp(o).media) != want_n:
             bad.append(f"the second offer (made while the first was pending) has {len(read_sdp(o).media)} sections; {want_n} expected")
     if c["expect_codec"] and not bad:
-        for m in read_sdp(n).media:
+        for m in [x for x in read_sdp(n).media if x.kind == "video"]:
             got = [(m.rtpmap.get(pt) or STATIC.get(pt, "?")).split("/")[0].lower() for pt in m.fmts]
             if c["expect_codec"] not in got:
                 bad.append(f"the answer selects {got}; {c['expect_codec']} was offered and both sides support that profile")
@@ -717,7 +721,8 @@ def c14_sim(rep: Report, prog: Program, tier: str) -> None:
             last = label.split(" ; ")[-1]
             c = f"sequence: {last}: " + re.sub(r"\d+", "N", detail)[:90]
             if c in seen:
-                continue        # the same misbehaviour after a different prefix
+                rep.rules[RULE]["instances"] += 1        # the same misbehaviour after a different prefix: counted, reported once
+                continue
             seen.add(c)
             rep.fail(mk_finding(prog, "C14", RULE, anchor, None, f"[{label}] {detail}", construct=c))
 
@@ -809,6 +814,7 @@ def c19_sim(rep: Report, prog: Program, tier: str) -> None:
         else:
             c = "close: " + re.sub(r"[\w-]+-\d+", "X", re.sub(r"\d+", "N", detail))[:90]
             if c in seen:
+                rep.rules[RULE]["instances"] += 1
                 continue
             seen.add(c)
             rep.fail(mk_finding(prog, "C19", RULE, anchor, None, f"[{label}] {detail}", construct=c))
